@@ -5,8 +5,8 @@
    (ECIES-AEAD-HKDF, NIST curves x hashes x point formats x DEMs).  The stdlib
    primitives are universally quantified functions; what is assumed about them
    is exactly the two law bundles below. *)
-From Coq Require Import List NArith Bool.
-From Tink Require Import Bytes Xwing Hpke Ecies HpkeProofs EciesProofs HpkeBinding EciesBinding.
+From Coq Require Import String List NArith Bool Arith.
+From Tink Require Import Bytes Xwing Hpke Ecies HpkeProofs EciesProofs HpkeBinding EciesBinding HpkeRfc HpkeRfcProofs.
 Import ListNotations.
 Open Scope N_scope.
 
@@ -416,6 +416,200 @@ Proof.
     split; [exact toy_open_seal|exact toy_open_sound].
   - split; [exact toy32_mlkem_ss_len|exact toy32_x25519_len].
   - vm_compute. repeat split; try reflexivity; discriminate.
+Qed.
+
+(* ================================================================== *)
+(* Tink's HPKE = RFC 9180 base mode                                    *)
+(* ================================================================== *)
+(* model/HpkeRfc.v is a transcription of RFC 9180 written from the RFC (sections
+   4, 4.1, 5.1, 5.1.1, 5.2, 6.1, 7.1-7.3; I2OSP of RFC 8017; HKDF = the RFC 5869
+   transcription model/Hkdf.v that C15 ties to the code), sharing nothing with
+   model/Hpke.v.  The RFC-side primitives (the hash of each KDF, DH / pk() on
+   serialized keys, AEAD Seal / Open) are arbitrary; Tink's model is run on the
+   primitives they induce (proofs/HpkeRfcProofs.v: t_extract = HKDF-Extract with
+   x/crypto's argument order, t_expand = HKDF-Expand, t_dh / t_dh_pub / t_seal /
+   t_open = the RFC primitive of the algorithm the Tink identifier names). *)
+Definition rfc_laws (Hash : kdf_alg -> bytes -> bytes) (DH : kem_alg -> bytes -> bytes -> option bytes) : Prop :=
+  (* the hash of a KDF returns Nh bytes *)
+  (forall D x, length (Hash D x) = Nh D) /\
+  (* DeserializePrivateKey / DeserializePublicKey accept exactly Nsk / Npk bytes (Table 2) *)
+  (forall K sk pk s, DH K sk pk = Some s -> length sk = r_Nsk (kem_table K) /\ length pk = r_Npk (kem_table K)).
+
+(* Identifiers and lengths of the model are those of Tables 2, 3 and 5 of the RFC,
+   and of the IANA registry / drafts for ML-KEM and X-Wing; the ASCII labels and
+   suite ids are the RFC's.  (proofs/ConstsTieC06.v ties the same literal tables to
+   the constants regenerated from hybrid/internal/hpke/hpke.go.) *)
+Theorem C06_hpke_identifiers_are_rfc9180 :
+  (forall k K, rfc_kem k = Some K ->
+     kem_id k = r_id (kem_table K) /\ n_secret k = r_Nsecret (kem_table K) /\ n_enc k = r_Nenc (kem_table K) /\
+     n_pk k = r_Npk (kem_table K) /\ n_sk k = r_Nsk (kem_table K) /\
+     rfc_kdf_of_hash (kem_hash k) = Some (kem_kdf K) /\ hash_len (kem_hash k) = r_Nsecret (kem_table K)) /\
+  (forall k K, rfc_pq_kem k = Some K ->
+     kem_id k = r_id (pq_kem_table K) /\ n_secret k = r_Nsecret (pq_kem_table K) /\ n_enc k = r_Nenc (pq_kem_table K) /\
+     n_pk k = r_Npk (pq_kem_table K) /\ n_sk k = r_Nsk (pq_kem_table K)) /\
+  (forall k, rfc_kem k <> None \/ rfc_pq_kem k <> None) /\
+  (forall d, kdf_id d = rfc_kdf_id (rfc_kdf d) /\ rfc_kdf_of_hash (kdf_hash d) = Some (rfc_kdf d) /\
+     hash_len (kdf_hash d) = Nh (rfc_kdf d)) /\
+  (forall a, aead_id a = rfc_aead_id (rfc_aead a) /\ n_k a = Nk (rfc_aead a) /\ n_n a = Nn (rfc_aead a)) /\
+  (forall k K, rfc_kem k = Some K -> kem_suite_id k = dhkem_suite_id K) /\
+  (forall k d a, hpke_suite_id k d a = hpke_suite (kem_id k) (rfc_kdf d) (rfc_aead a)) /\
+  gcm_max_plaintext = P_MAX AEAD_AES_128_GCM /\ gcm_max_plaintext = P_MAX AEAD_AES_256_GCM.
+Proof.
+  split; [exact kem_table_rfc|]. split; [exact pq_kem_table_rfc|].
+  split; [intros []; simpl; (left; discriminate) || (right; discriminate)|].
+  split; [exact kdf_table_rfc|]. split; [exact aead_table_rfc|].
+  split; [exact kem_suite_id_rfc|]. split; [exact hpke_suite_id_rfc|]. split; reflexivity.
+Qed.
+Print Assumptions C06_hpke_identifiers_are_rfc9180.
+
+(* KeySchedule (5.1), every KEM id, KDF and AEAD, all shared secrets and infos:
+   Tink's (key, base_nonce) are those of KeySchedule(mode_base, ss, info, "", ""). *)
+Theorem C06_hpke_key_schedule_is_rfc9180 :
+  forall Hash, (forall D x, length (Hash D x) = Nh D) ->
+  forall k d a ss info,
+    key_schedule (t_extract Hash) (t_expand Hash) k d a ss info =
+    out (option_map (fun c => (c_key c, c_base_nonce c))
+           (KeySchedule Hash (kem_id k) (rfc_kdf d) (rfc_aead a) mode_base ss info default_psk default_psk_id)).
+Proof. intros. apply key_schedule_rfc. Qed.
+Print Assumptions C06_hpke_key_schedule_is_rfc9180.
+
+(* DHKEM(P-256 / P-384 / P-521 / X25519) x HKDF-SHA256/384/512 x AES-128-GCM /
+   AES-256-GCM / ChaCha20Poly1305, every recipient key, ephemeral key, info and
+   plaintext: Tink's Encrypt is prefix || enc || ct with (enc, ct) = SealBase(pkR,
+   info, aad = "", pt) of the RFC (Err exactly when the RFC raises an error); the
+   only premise is the plaintext limit of ChaCha20-Poly1305 (RFC 8439), which the
+   code leaves to x/crypto. *)
+Theorem C06_hpke_encrypt_is_rfc9180_SealBase :
+  forall Hash DH PK AeadSeal mlkem_encap sha3_256, rfc_laws Hash DH ->
+  forall k K d a prefix pkR eph info pt, rfc_kem k = Some K ->
+    (a = CHACHA20POLY1305 -> N.of_nat (length pt) <= P_MAX AEAD_ChaCha20Poly1305) ->
+    hpke_encrypt (t_extract Hash) (t_expand Hash) (t_dh DH) (t_dh_pub PK) mlkem_encap sha3_256 (t_seal AeadSeal)
+      k d a prefix pkR eph info pt =
+    out (option_map (fun r => prefix ++ fst r ++ snd r)
+           (SealBase_DHKEM Hash DH PK AeadSeal K (rfc_kdf d) (rfc_aead a) pkR eph info [] pt)).
+Proof. intros until sha3_256. intros [L1 L2]. intros. apply hpke_encrypt_is_prefix_SealBase; assumption. Qed.
+Print Assumptions C06_hpke_encrypt_is_rfc9180_SealBase.
+
+(* ... and Decrypt of prefix || rest is: Err if rest is shorter than Nenc, otherwise
+   OpenBase(enc = rest[0:Nenc], skR, info, aad = "", ct = rest[Nenc:]) of the RFC. *)
+Theorem C06_hpke_decrypt_is_rfc9180_OpenBase :
+  forall Hash DH PK AeadOpen mlkem_decap shake256 sha3_256, rfc_laws Hash DH ->
+  forall k K d a prefix skR rest info, rfc_kem k = Some K ->
+    hpke_decrypt (t_extract Hash) (t_expand Hash) (t_dh DH) (t_dh_pub PK) mlkem_decap shake256 sha3_256 (t_open AeadOpen)
+      k d a prefix skR (prefix ++ rest) info =
+    if Nat.ltb (length rest) (r_Nenc (kem_table K)) then Err else
+    out (OpenBase_DHKEM Hash DH PK AeadOpen K (rfc_kdf d) (rfc_aead a)
+           (firstn (r_Nenc (kem_table K)) rest) skR info [] (skipn (r_Nenc (kem_table K)) rest)).
+Proof. intros until sha3_256. intros [L1 L2]. intros. apply hpke_decrypt_is_prefix_OpenBase; assumption. Qed.
+Print Assumptions C06_hpke_decrypt_is_rfc9180_OpenBase.
+
+(* ML-KEM-768 / ML-KEM-1024 (KEM ids 0x0041 / 0x0042, IANA HPKE registry,
+   draft-ietf-hpke-pq): RFC 9180 over the KEM itself - the shared secret is
+   ML-KEM's own, no DH ExtractAndExpand.  (ML-KEM is a primitive of the stdlib;
+   the run-time stand-in for its coins is described in the note.) *)
+Theorem C06_hpke_mlkem_is_rfc9180_over_mlkem :
+  forall Hash DH PK AeadSeal AeadOpen mlkem_decap mlkem_encap shake256 sha3_256,
+  (forall D x, length (Hash D x) = Nh D) ->
+  forall k K d a, is_mlkem k = true -> rfc_pq_kem k = Some K ->
+    (forall pkR eph info pt,
+       (a = CHACHA20POLY1305 -> N.of_nat (length pt) <= P_MAX AEAD_ChaCha20Poly1305) ->
+       raw_encrypt (t_extract Hash) (t_expand Hash) (t_dh DH) (t_dh_pub PK) mlkem_encap sha3_256 (t_seal AeadSeal)
+         k d a pkR eph info pt =
+       if Nat.eqb (length pkR) 0 then Err else
+       out (option_map (fun r => fst r ++ snd r)
+              (SealBase Hash AeadSeal (r_id (pq_kem_table K)) (mlkem_encap k) (rfc_kdf d) (rfc_aead a) pkR eph info [] pt))) /\
+    (forall skR c info,
+       raw_decrypt (t_extract Hash) (t_expand Hash) (t_dh DH) (t_dh_pub PK) mlkem_decap shake256 sha3_256 (t_open AeadOpen)
+         k d a skR c info =
+       if Nat.eqb (length skR) 0 then Err else
+       if Nat.ltb (length c) (r_Nenc (pq_kem_table K)) then Err else
+       out (OpenBase Hash AeadOpen (r_id (pq_kem_table K)) (fun enc sk => mlkem_decap k sk enc) (rfc_kdf d) (rfc_aead a)
+              (firstn (r_Nenc (pq_kem_table K)) c) skR info [] (skipn (r_Nenc (pq_kem_table K)) c))).
+Proof.
+  intros. split; intros.
+  - apply mlkem_raw_encrypt_is_SealBase; assumption.
+  - apply mlkem_raw_decrypt_is_OpenBase; assumption.
+Qed.
+Print Assumptions C06_hpke_mlkem_is_rfc9180_over_mlkem.
+
+(* X-Wing (KEM id 0x647a): model/Xwing.v, written after hybrid/internal/xwing/xwing.go,
+   equals EncapsulateDerand / Decapsulate of draft-connolly-cfrg-xwing-kem-10 (the
+   model reads its explicit randomness as ek_X || coins, the draft's eseed is
+   coins || ek_X), and HPKE is RFC 9180 over that KEM.  Laws: SHAKE-256 returns the
+   requested length; ML-KEM-768 KeyGen_internal is total on 64-byte seeds (the draft's
+   expandDecapsulationKey runs it, the code does not need pk_M to decapsulate). *)
+Theorem C06_hpke_xwing_is_rfc9180_over_xwing_draft :
+  forall Hash DH PK AeadSeal AeadOpen mlkem_decap mlkem_encap mlkem_pub shake256 sha3_256,
+  (forall D x, length (Hash D x) = Nh D) ->
+  (forall m n, length (shake256 m n) = n) ->
+  (forall seed, length seed = 64%nat -> mlkem_pub MLKEM768 seed <> None) ->
+  let XEncap := XWing_EncapsulateDerand sha3_256 (mlkem_encap MLKEM768) (t_dh DH X25519) (t_dh_pub PK X25519) in
+  let XDecap := XWing_Decapsulate shake256 sha3_256 (mlkem_pub MLKEM768) (mlkem_decap MLKEM768) (t_dh DH X25519) (t_dh_pub PK X25519) in
+  (forall pk ekX coins, length ekX = 32%nat -> length coins = 32%nat ->
+     encap (t_extract Hash) (t_expand Hash) (t_dh DH) (t_dh_pub PK) mlkem_encap sha3_256 XWING pk (ekX ++ coins) =
+     out (XEncap pk (coins ++ ekX))) /\
+  (forall ct sk,
+     decap (t_extract Hash) (t_expand Hash) (t_dh DH) (t_dh_pub PK) mlkem_decap shake256 sha3_256 XWING ct sk =
+     out (XDecap ct sk)) /\
+  (forall d a pkR ekX coins info pt, length ekX = 32%nat -> length coins = 32%nat ->
+     (a = CHACHA20POLY1305 -> N.of_nat (length pt) <= P_MAX AEAD_ChaCha20Poly1305) ->
+     raw_encrypt (t_extract Hash) (t_expand Hash) (t_dh DH) (t_dh_pub PK) mlkem_encap sha3_256 (t_seal AeadSeal)
+       XWING d a pkR (ekX ++ coins) info pt =
+     if Nat.eqb (length pkR) 0 then Err else
+     out (option_map (fun r => fst r ++ snd r)
+            (SealBase Hash AeadSeal (r_id (pq_kem_table KEM_X_WING)) (fun pk _ => XEncap pk (coins ++ ekX))
+               (rfc_kdf d) (rfc_aead a) pkR [] info [] pt))) /\
+  (forall d a skR c info,
+     raw_decrypt (t_extract Hash) (t_expand Hash) (t_dh DH) (t_dh_pub PK) mlkem_decap shake256 sha3_256 (t_open AeadOpen)
+       XWING d a skR c info =
+     if Nat.eqb (length skR) 0 then Err else
+     if Nat.ltb (length c) (r_Nenc (pq_kem_table KEM_X_WING)) then Err else
+     out (OpenBase Hash AeadOpen (r_id (pq_kem_table KEM_X_WING)) XDecap (rfc_kdf d) (rfc_aead a)
+            (firstn (r_Nenc (pq_kem_table KEM_X_WING)) c) skR info [] (skipn (r_Nenc (pq_kem_table KEM_X_WING)) c))).
+Proof.
+  intros until sha3_256. intros L1 L2 L3. cbv zeta. split; [|split; [|split]]; intros.
+  - apply xwing_encap_draft; assumption.
+  - eapply xwing_decap_draft; eassumption.
+  - apply xwing_raw_encrypt_is_SealBase; assumption.
+  - eapply xwing_raw_decrypt_is_OpenBase; eassumption.
+Qed.
+Print Assumptions C06_hpke_xwing_is_rfc9180_over_xwing_draft.
+
+(* Non-vacuity: the two laws hold of a toy instance (constant hash of the right
+   length, DH that checks the key lengths), and there the RFC's SealBase succeeds,
+   Tink's Encrypt returns its output, and OpenBase / Decrypt return the plaintext. *)
+Definition toyr_Hash (D : kdf_alg) (x : bytes) : bytes := repeat (toy_sum x) (Nh D).
+Definition toyr_DH (K : kem_alg) (sk pk : bytes) : option bytes :=
+  if (Nat.eqb (length sk) (r_Nsk (kem_table K)) && Nat.eqb (length pk) (r_Npk (kem_table K)))%bool then Some [7] else None.
+Definition toyr_PK (K : kem_alg) (sk : bytes) : option bytes :=
+  if Nat.eqb (length sk) (r_Nsk (kem_table K)) then Some (zeros (r_Npk (kem_table K))) else None.
+Definition toyr_Seal (a : aead_alg) (k n ad p : bytes) : bytes := k ++ n ++ p.
+Definition toyr_Open (a : aead_alg) (k n ad c : bytes) : option bytes :=
+  if beq (firstn (length k + length n) c) (k ++ n) then Some (skipn (length k + length n) c) else None.
+
+Example C06_hpke_rfc9180_nonvacuous :
+  rfc_laws toyr_Hash toyr_DH /\
+  match SealBase_DHKEM toyr_Hash toyr_DH toyr_PK toyr_Seal KEM_X25519_SHA256 KDF_HKDF_SHA256 AEAD_AES_128_GCM
+          (zeros 32) (zeros 32) [1; 2; 3] [] [10; 20] with
+  | Some (enc, ct) =>
+      hpke_encrypt (t_extract toyr_Hash) (t_expand toyr_Hash) (t_dh toyr_DH) (t_dh_pub toyr_PK) toy_mlkem_encap toy_sha3
+        (t_seal toyr_Seal) X25519 HKDF_SHA256 AES128GCM [1; 0; 0; 0; 42] (zeros 32) (zeros 32) [1; 2; 3] [10; 20]
+      = Ok ([1; 0; 0; 0; 42] ++ enc ++ ct) /\
+      OpenBase_DHKEM toyr_Hash toyr_DH toyr_PK toyr_Open KEM_X25519_SHA256 KDF_HKDF_SHA256 AEAD_AES_128_GCM
+        enc (zeros 32) [1; 2; 3] [] ct = Some [10; 20] /\
+      hpke_decrypt (t_extract toyr_Hash) (t_expand toyr_Hash) (t_dh toyr_DH) (t_dh_pub toyr_PK) toy_mlkem_decap toy_shake256 toy_sha3
+        (t_open toyr_Open) X25519 HKDF_SHA256 AES128GCM [1; 0; 0; 0; 42] (zeros 32) ([1; 0; 0; 0; 42] ++ enc ++ ct) [1; 2; 3]
+      = Ok [10; 20]
+  | None => False
+  end.
+Proof.
+  split.
+  - split.
+    + intros. apply repeat_length.
+    + intros K sk pk s. unfold toyr_DH.
+      destruct (Nat.eqb_spec (length sk) (r_Nsk (kem_table K))); [|discriminate].
+      destruct (Nat.eqb_spec (length pk) (r_Npk (kem_table K))); [|discriminate]. auto.
+  - vm_compute. repeat split; reflexivity.
 Qed.
 
 (* ================================================================== *)
